@@ -1,7 +1,7 @@
 """C15: layout, comments and string contents never change what is parsed; spans are literal."""
 import json
 
-from lv import core, noise, parsers, syntaxgen
+from lv import core, noise, parsers, syntaxgen, syntaximport
 
 ID = 'C15'
 BUDGET = {'quick': 2400, 'thorough': 60000}     # generated programs; 4 parses each
@@ -20,15 +20,20 @@ RULE = ('programs of the syntactic grammar generator lv/syntaxgen.py, printed tw
         '(three literal forms; separators, brackets, comment markers, keywords, quotes, '
         'non-ASCII). Non-trivial: accepted by both parsers with >= 3 noise insertions of '
         'which >= 1 comment, or a literal containing syntax characters; distinct by hash of '
-        'the noisy text.')
+        'the noisy text. Input classes of open findings are kept out by construction '
+        '(excluded_by_construction counts them; VERIF_SYNTAX_EXCLUDE_<NAME>=0 lets one in).')
 ASSUMPTIONS = ['comment-free statement texts are computed from the generator\'s own token '
                'stream, not by the parser\'s RemoveComments',
                'shared object built by lv/cppbuild.py from the current logica_parse.cpp']
 
-# The C++ parser gives the array expression of `l[i]` a heritage of its own (the text
-# `l`) instead of the statement (ParseArraySub builds a fresh SpanString from the name):
-# finding D14.  While it is open, C15 programs contain no `l[i]` (counted).
-AVOID_CPP_ARRAYSUB_HERITAGE = True
+# FINDING cpp_array_subscript_heritage (C15 and C06, C++ parser only): the array
+# expression of `l[i]` gets a heritage of its own (the text `l`, span 0..1) instead of
+# its span in the statement (ParseArraySub builds a fresh SpanString from the name).
+# While the exclusion is on (VERIF_SYNTAX_EXCLUDE_ARRAYSUB_SPAN=0 switches it off), the
+# span checks skip exactly that node of C++ trees (counted); `l[i]` itself stays in the
+# generated programs.
+EXCLUDE_ARRAYSUB_SPAN = syntaxgen.excluded('ARRAYSUB_SPAN')
+KEY_ARRAYSUB = 'cpp_array_subscript_heritage'
 
 
 def norm_layout(s):
@@ -104,12 +109,26 @@ def atom_text(node):
     return None
 
 
-def check_tree(tree, mode, which, allowed, strings, text):
-    """(b) and (c) on one accepted tree."""
+def check_tree(tree, mode, which, allowed, strings, text, excluded=None, renamed=False):
+    """(b) and (c) on one accepted tree.  renamed: the tree comes from a file tree, where
+    imported / file-local predicate names are rewritten (`P` -> `Util_P`) while their
+    spans keep reading the source: predicate atoms are not compared with their spans."""
     fails = []
     seen = set()
     for path, h in parsers.heritage_strings(tree, []):
         key = path.rsplit('/', 1)[-1]
+        if mode == 'CPP' and key == 'expression_heritage' and h.heritage == str(h) and \
+                h.heritage not in allowed and parsers.is_array_operand(tree, path):
+            # the input class of finding cpp_array_subscript_heritage
+            if EXCLUDE_ARRAYSUB_SPAN:
+                if excluded is not None and 'finding:' + KEY_ARRAYSUB not in excluded:
+                    excluded.append('finding:' + KEY_ARRAYSUB)        # once per case
+            elif KEY_ARRAYSUB not in seen:
+                seen.add(KEY_ARRAYSUB)
+                fails.append((KEY_ARRAYSUB, '%s %s text, node %s = %r: its heritage is %r, '
+                              'not the statement it stands in\ntext:\n%s' % (
+                                  mode, which, path, str(h), h.heritage, text)))
+            continue
         if h.heritage[h.start:h.stop] != str(h):
             b = 'span_not_literal:%s:%s' % (mode, parsers.path_class(path))
             if b not in seen:
@@ -128,6 +147,8 @@ def check_tree(tree, mode, which, allowed, strings, text):
     for path, node in atom_nodes(tree, []):
         h = node['expression_heritage']
         want = atom_text(node)
+        if renamed and 'literal' in node and 'the_predicate' in node['literal']:
+            continue
         if want is not None and norm_layout(str(h)) != want:
             b = 'span_wrong_text:%s:%s' % (mode, parsers.path_class(path))
             if b not in seen:
@@ -146,20 +167,21 @@ def check_tree(tree, mode, which, allowed, strings, text):
     return fails
 
 
-def evaluate(case):
-    """-> (fails, info)."""
+def evaluate_pair(case):
+    """-> (fails, info) for the texts case['base'] / case['noisy']."""
     fails = []
-    info = {}
+    info = {'excluded': []}
     strings = case['strings']
+    root = syntaximport.write_tree(case['files']) if case.get('files') else None
     for mode in ('PY', 'CPP'):
-        sb, tb = parsers.parse_one(case['base'], mode)
-        sn, tn = parsers.parse_one(case['noisy'], mode)
+        sb, tb = parsers.parse_one(case['base'], mode, root)
+        sn, tn = parsers.parse_one(case['noisy'], mode, root)
         info[mode] = (sb, sn)
         if sb != 'ok':
             info[mode + '_base_msg'] = tb
             continue
         fails += check_tree(tb, mode, 'base', set(case['allowed_base']), strings,
-                            case['base'])
+                            case['base'], info['excluded'], root is not None)
         if sn != 'ok':
             fails.append(('noise_rejected:%s:%s:%s' % (mode, sn, tn),
                           '%s parser accepts the base text but the layout variant is: %s '
@@ -185,13 +207,52 @@ def evaluate(case):
                             mode, path, str(x), str(y), case['base'], case['noisy'])))
                     break
         fails += check_tree(tn, mode, 'noisy', set(case['allowed_noisy']), strings,
-                            case['noisy'])
+                            case['noisy'], info['excluded'], root is not None)
+    if root is not None:
+        syntaximport.remove_tree(root)
     return fails, info
 
 
+def evaluate(case):
+    """-> (fails, info).  A case whose noisy text contains the input class of a layout
+    finding (only generated with that finding's exclusion switched off, or written by
+    hand as a repro) carries `alt`: {finding key or 'a+b': {'noisy', 'allowed_noisy'}},
+    the same noisy text without that layout.  Failures that disappear there are the
+    finding's: they are reported under its key (several keys: 'layout:quirk:a+b')."""
+    fails, info = evaluate_pair(case)
+    layout_fails = [f for f in fails if f[0] != KEY_ARRAYSUB]
+    if layout_fails and case.get('alt'):
+        for key in sorted(case['alt'], key=lambda k: (k.count('+'), k)):
+            c2 = dict(case)
+            c2.update(case['alt'][key])
+            f2, _ = evaluate_pair(c2)
+            if not [f for f in f2 if f[0] != KEY_ARRAYSUB]:
+                bucket = key if '+' not in key else 'layout:quirk:' + key
+                fails = [f for f in fails if f[0] == KEY_ARRAYSUB] + [
+                    (bucket, 'fails only with the layout of %s (%s):\n%s' % (
+                        key, ', '.join(sorted(set(b for b, _ in layout_fails))),
+                        layout_fails[0][1]))]
+                break
+    return fails, info
+
+
+IMPORT_SHARE = 6            # roughly one case in ten is the main file of an import tree
+
+
 def make_case(rng):
-    stmts, strings, feats, excl = syntaxgen.generate(
-        rng, arraysub=not AVOID_CPP_ARRAYSUB_HERITAGE)
+    files, file_allowed = None, set()
+    if rng.randrange(IMPORT_SHARE) == 0:
+        tree = syntaximport.gen_tree(rng)
+        files, file_allowed = syntaximport.render_modules(tree, rng)
+        stmts = tree['mods'][0]['stmts']
+        strings = [x for i in tree['reachable'] for x in tree['mods'][i]['strings']]
+        feats = set(tree['feats'])
+        excl = {}
+        if syntaximport.EXCLUDE_IMPORT_LAYOUT:
+            excl['finding:' + syntaximport.RISK_IMPORT] = sum(
+                1 for x in tree['mods'][0]['is_import'] if x)
+    else:
+        stmts, strings, feats, excl = syntaxgen.generate(rng)
     t0 = rng.random() < 0.5
     base = noise.render(stmts, trailing=t0)
     noisy = noise.render(stmts, rng, p_noise=[0.1, 0.3, 0.6][rng.randrange(3)],
@@ -199,11 +260,21 @@ def make_case(rng):
                          trailing=(not t0) if rng.random() < 0.7 else t0)
     excluded = dict(excl)
     if noisy.stats.get('excluded_den_paren'):
-        excluded['D15_parenthesised_first_denotation_argument'] = \
-            noisy.stats['excluded_den_paren']
+        excluded['finding:' + noise.RISK_DEN] = noisy.stats['excluded_den_paren']
     case = {'base': base.text, 'noisy': noisy.text, 'strings': strings,
-            'allowed_base': sorted(base.allowed_heritage()),
-            'allowed_noisy': sorted(noisy.allowed_heritage())}
+            'allowed_base': sorted(base.allowed_heritage() | file_allowed),
+            'allowed_noisy': sorted(noisy.allowed_heritage() | file_allowed)}
+    if files is not None:
+        case['files'] = files
+    risks = noisy.risks()
+    if risks:
+        combos = [[r] for r in risks] + ([risks] if len(risks) > 1 else [])
+        case['alt'] = {}
+        for names in combos:
+            r2 = noisy.without(names)
+            case['alt']['+'.join(names)] = {
+                'noisy': r2.text,
+                'allowed_noisy': sorted(r2.allowed_heritage() | file_allowed)}
     stats = dict(noisy.stats)
     stats['trailing_toggled'] = int(base.text.rstrip().endswith(';') !=
                                     noisy.text_nocomment.rstrip().endswith(';'))
@@ -217,8 +288,11 @@ def shard(ctx, col):
     def one(rng):
         case, feats, excluded, stats = make_case(rng)
         for k, v in excluded.items():
-            col.excluded[k] += v
+            for _ in range(v):
+                col.exclude(k)
         fails, info = evaluate(case)
+        for k in info['excluded']:
+            col.exclude(k)
         labels = ['feat:' + f for f in feats]
         labels += ['noise:' + k for k, v in stats.items() if v and not k.startswith('excl')]
         for mode in ('PY', 'CPP'):
@@ -246,7 +320,10 @@ def shard(ctx, col):
                          'strings': case['strings'], 'noise': stats})
         for bucket, detail in fails:
             col.fail(bucket, case, detail)
-    core.hyp_run(one, st.randoms(use_true_random=False), ctx.budget, ctx.hyp_seed)
+    try:
+        core.hyp_run(one, st.randoms(use_true_random=False), ctx.budget, ctx.hyp_seed)
+    finally:
+        syntaximport.cleanup()
 
 
 def check_case(case):
@@ -254,6 +331,7 @@ def check_case(case):
     (allowed_base / allowed_noisy).  A hand-written case may omit them: then the texts
     must be free of comments and of ';' inside literals, and statements are the stripped
     pieces between ';' (plus the `-->` rewrites)."""
+    global EXCLUDE_ARRAYSUB_SPAN
     parsers.setup()
     case = dict(case)
     case.setdefault('strings', [])
@@ -261,7 +339,21 @@ def check_case(case):
     for which in ('base', 'noisy'):
         if 'allowed_' + which not in case:
             case['allowed_' + which] = naive_statements(case[which])
-    fails, _ = evaluate(case)
+    if case.get('alt'):
+        case['alt'] = {k: dict(v) for k, v in case['alt'].items()}
+        for v in case['alt'].values():
+            if 'allowed_noisy' not in v:
+                v['allowed_noisy'] = naive_statements(v['noisy'])
+    # `with_findings`: [keys] switches the exclusions that act inside the oracle off for
+    # this case (repro of an open finding)
+    saved = EXCLUDE_ARRAYSUB_SPAN
+    if KEY_ARRAYSUB in (case.get('with_findings') or ()):
+        EXCLUDE_ARRAYSUB_SPAN = False
+    try:
+        fails, _ = evaluate(case)
+    finally:
+        EXCLUDE_ARRAYSUB_SPAN = saved
+        syntaximport.cleanup()
     return fails
 
 
